@@ -2,6 +2,8 @@ import PhononModel.Lemmas.Displacement
 import PhononModel.Lemmas.FDPipeline
 import PhononModel.Lemmas.DesignRank
 import PhononModel.Lemmas.FDStaged
+import PhononModel.Lemmas.FDLit
+import PhononModel.Lemmas.FDLitStaged
 import Mathlib.Tactic.NormNum
 /-!
 # C01 — the finite-displacement solver recovers exactly harmonic force constants
@@ -289,6 +291,63 @@ theorem fd_pipeline_twostage_exact {np n nrot nt : Nat} (Φ : FC n K) (p2s : Fin
   intro s
   rw [(hops s).2.2]; exact hR _
 
+/-! ## the C kernel, literally: `distribute_fc2`'s loops equal the closed form -/
+
+/-- the literal loop model of `c/phonopy.c: distribute_fc2` (`atom_list_reverse` table, `continue` on done
+atoms, `+=` in source order on the current array) equals the closed form used by (5)/(6) — for all sizes, arrays
+and tables — whenever no row that is read (position whose atom maps to itself) is also written (position whose
+atom does not). -/
+theorem distributeLit_eq_distribute {M Mr n nrot : Nat} (targets : Fin M → Fin n) (fcIdx : Fin M → Fin Mr)
+    (R : Fin nrot → Mat3 K) (perms : Fin nrot → Fin n → Fin n) (mapSyms : Fin n → Fin nrot) (fc : Rows Mr n K)
+    (hsep : ∀ i i', perms (mapSyms (targets i)) (targets i) ≠ targets i →
+      perms (mapSyms (targets i')) (targets i') = targets i' → fcIdx i' ≠ fcIdx i) :
+    distributeLit targets fcIdx R perms mapSyms fc = distribute targets fcIdx R perms mapSyms fc :=
+  distributeLit_eq targets fcIdx R perms mapSyms fc hsep
+
+/-- in particular for every injective `fc_indices_of_atom_list` (`arange`, `p2s_map`: all call sites) -/
+theorem distributeLit_eq_distribute_of_injective {M Mr n nrot : Nat} (targets : Fin M → Fin n)
+    (fcIdx : Fin M → Fin Mr) (hinj : Function.Injective fcIdx)
+    (R : Fin nrot → Mat3 K) (perms : Fin nrot → Fin n → Fin n) (mapSyms : Fin n → Fin nrot) (fc : Rows Mr n K) :
+    distributeLit targets fcIdx R perms mapSyms fc = distribute targets fcIdx R perms mapSyms fc :=
+  distributeLit_eq targets fcIdx R perms mapSyms fc (fun i i' h h' e => by
+    have := hinj e; subst this; exact h h')
+
+/-- the first C loop builds exactly the table the closed form looks up -/
+theorem atom_list_reverse_spec {M n : Nat} (targets : Fin M → Fin n) (mapAtoms : Fin n → Fin n) (d : Fin n) :
+    revTable targets mapAtoms d = revIdx targets mapAtoms d := revTable_eq targets mapAtoms d
+
+/-- the pipeline run with the literal kernel is the pipeline the exactness theorems are about -/
+theorem runDirectLit_eq_runDirect {M n nrot : Nat} (atomList : Fin M → Fin n) (R : Fin nrot → Mat3 K)
+    (perms : Fin nrot → Fin n → Fin n) (data : List (AtomData n K)) :
+    runDirectLit atomList R perms data = runDirect atomList R perms data := by
+  unfold runDirectLit runDirect
+  cases fcDisps atomList data (fun _ _ _ _ => 0) with
+  | none => rfl
+  | some fc0 =>
+    cases symMappings perms (data.map (·.atom)) with
+    | none => rfl
+    | some ms => exact distributeLit_eq_distribute_of_injective atomList id (fun _ _ h => h) R perms ms fc0
+
+/-- hence (6) for the literal kernel -/
+theorem fd_pipeline_exact_literal {M n nrot : Nat} (Φ : FC n K) (atomList : Fin M → Fin n)
+    (hinjA : Function.Injective atomList) (R : Fin nrot → Mat3 K) (perms : Fin nrot → Fin n → Fin n)
+    (data : List (AtomData n K))
+    (hR : ∀ g, Orthogonal (R g)) (hinv : Invariant Φ perms R) (hperm : PermSym Φ)
+    (hF : ∀ D ∈ data, HarmonicForces Φ D)
+    (hsite : ∀ D ∈ data, SiteConsistent R perms D)
+    (hrank : ∀ D ∈ data, FD.det3 (gram (rotDisps D.R D.u)) ≠ 0)
+    (hrow : ∀ D ∈ data, ∃ r, atomList r = D.atom)
+    (hdone : doneCert perms (data.map (·.atom)) = true)
+    (hcover : ∀ a, ∃ g, perms g a ∈ data.map (·.atom)) :
+    runDirectLit atomList R perms data = some (fun r => Φ (atomList r)) := by
+  rw [runDirectLit_eq_runDirect]
+  exact fd_pipeline_exact Φ atomList hinjA R perms data hR hinv hperm hF hsite hrank hrow hdone hcover
+
+theorem runDirectLitT_eq {M n nrot : Nat} (atomList : Fin M → Fin n) (R : Fin nrot → Mat3 K)
+    (perms : Fin nrot → Fin n → Fin n) (data : List (AtomData n K)) :
+    (runDirectLitT atomList R perms data).map Tab4.read = runDirectLit atomList R perms data :=
+  runDirectLitT_spec atomList R perms data
+
 /-! ## the property, with the displacements phonopy itself generated (no rank hypothesis left) -/
 
 section generated
@@ -438,6 +497,12 @@ end PhononModel.C01
 #print axioms PhononModel.C01.compact_exact
 #print axioms PhononModel.C01.translations_exact
 #print axioms PhononModel.C01.fd_pipeline_twostage_exact
+#print axioms PhononModel.C01.distributeLit_eq_distribute
+#print axioms PhononModel.C01.distributeLit_eq_distribute_of_injective
+#print axioms PhononModel.C01.atom_list_reverse_spec
+#print axioms PhononModel.C01.runDirectLit_eq_runDirect
+#print axioms PhononModel.C01.fd_pipeline_exact_literal
+#print axioms PhononModel.C01.runDirectLitT_eq
 #print axioms PhononModel.C01.generated_design_full_rank
 #print axioms PhononModel.C01.fd_pipeline_exact_generated
 #print axioms PhononModel.C01.solveRowsT_eq
